@@ -5,7 +5,7 @@
 
 static const char* rhs_kind_name(int k)
 {
-    static const char* n[] = {"random", "wide", "unit", "consistent", "consistent-wide"};
+    static const char* n[] = {"random", "wide", "unit", "consistent", "consistent-wide", "scaled-tiny-or-huge"};
     return n[k];
 }
 
@@ -34,7 +34,7 @@ static void run_case(CaseCtx& c)
     GridSpec gs = gen_grid(rng, go);
     ProblemSpec ps = random_problem(rng, go.Rmax, true);
     bool dirbc = rng.coin();
-    int rkind = rng.range(0, 4);
+    int rkind = rng.range(0, 5);
     int threads = rng.pick({1, 2, 3, 5, 16});
     int cache_combo = rng.range(0, 3);
     gs.describe(c.obs.params);
@@ -63,6 +63,14 @@ static void run_case(CaseCtx& c)
     else if (rkind == 2) {
         assign(b, 0.0);
         b[rng.range(0, n - 1)] = rng.sign() * rng.loguniform(1e-3, 1e3);
+    }
+    else if (rkind == 5) {
+        // a purely scaled right-hand side: the solve is linear, so the scale must not matter (1e-150 .. 1e+100)
+        b = random_vector(rng, n, 0);
+        double sc = std::pow(10.0, rng.pick({-150.0, -60.0, -25.0, -20.0, -17.0, -14.0, 30.0, 100.0}));
+        for (int i = 0; i < n; i++)
+            b[i] *= sc;
+        c.obs.params.num("rhs_scale", sc);
     }
     else {
         xstar = rkind == 3 ? random_vector(rng, n, 0) : random_vector(rng, n, 1);
